@@ -324,6 +324,8 @@ def load_known():
 
 def match_known(prop, sig):
     """sig: dict with 'site' and 'key' (the specific token / position / call); all given keys of the entry must agree."""
+    if os.environ.get("VERIF_IGNORE_KNOWN") == "1":      # inspection only: show every violation, recorded or not
+        return None
     for f in load_known():
         if f.get("status", "open") != "open" or f["property"] != prop:
             continue
